@@ -46,15 +46,18 @@ theorem writeNegative_noMax (ds : List Nat) (e : Int) (o : WOpts) :
       [48, o.dp] ++ zeros (e.natAbs - 1) ++ chars ds ++
         (if ds.length < minExactDigits ds.length o then zeros (minExactDigits ds.length o - ds.length) else []) := rfl
 
+/-- positional layout of a value ≥ 1 for final digits `ds` -/
+def posList (ds : List Nat) (e : Int) (o : WOpts) : List Nat :=
+  (if e.toNat + 1 ≥ ds.length then
+    (if o.trim then chars ds ++ zeros (e.toNat + 1 - ds.length)
+     else chars ds ++ zeros (e.toNat + 1 - ds.length) ++ [o.dp, 48] ++
+       (if minExactDigits (e.toNat + 1 + 1) o > e.toNat + 1 + 1 then
+          zeros (minExactDigits (e.toNat + 1 + 1) o - (e.toNat + 1 + 1)) else []))
+  else chars (ds.take (e.toNat + 1)) ++ [o.dp] ++ chars (ds.drop (e.toNat + 1)) ++
+    (if minExactDigits ds.length o > ds.length then zeros (minExactDigits ds.length o - ds.length) else []))
+
 theorem writePositive_noMax (ds : List Nat) (e : Int) (o : WOpts) :
-    writePositive ds e { o with maxDigits := none } =
-      (if e.toNat + 1 ≥ ds.length then
-        (if o.trim then chars ds ++ zeros (e.toNat + 1 - ds.length)
-         else chars ds ++ zeros (e.toNat + 1 - ds.length) ++ [o.dp, 48] ++
-           (if minExactDigits (e.toNat + 1 + 1) o > e.toNat + 1 + 1 then
-              zeros (minExactDigits (e.toNat + 1 + 1) o - (e.toNat + 1 + 1)) else []))
-      else chars (ds.take (e.toNat + 1)) ++ [o.dp] ++ chars (ds.drop (e.toNat + 1)) ++
-        (if minExactDigits ds.length o > ds.length then zeros (minExactDigits ds.length o - ds.length) else [])) := rfl
+    writePositive ds e { o with maxDigits := none } = posList (trimPos o (e.toNat + 1) ds) e o := rfl
 
 /-- finish: `take cursor` of a chain of `put`s equals a list-level expression -/
 macro "finish_bytes" : tactic => `(tactic|
@@ -63,11 +66,11 @@ macro "finish_bytes" : tactic => `(tactic|
    · first | omega | (simp <;> omega)
    · bytes_tac))
 
-theorem posC_bytes (ds : List Nat) (sciExp : Int) (o : WOpts) (b : WBuf) (r : Out)
-    (h : posC ds sciExp o b = .ok r) :
-    r.buf.bytes.take r.cursor = writePositive ds sciExp { o with maxDigits := none } := by
-  unfold posC at h
-  rw [writePositive_noMax]
+theorem posCLayout_bytes (ds : List Nat) (sciExp : Int) (o : WOpts) (b : WBuf) (r : Out)
+    (h : posCLayout ds sciExp o b = .ok r) :
+    r.buf.bytes.take r.cursor = posList ds sciExp o := by
+  unfold posCLayout at h
+  unfold posList
   simp only [] at h
   by_cases hge : sciExp.toNat + 1 ≥ ds.length
   · simp only [hge, ↓reduceIte] at h ⊢
@@ -110,18 +113,27 @@ theorem posC_bytes (ds : List Nat) (sciExp : Int) (o : WOpts) (b : WBuf) (r : Ou
       subst h4
       finish_bytes
 
+theorem posC_bytes (ds : List Nat) (sciExp : Int) (o : WOpts) (b : WBuf) (r : Out)
+    (h : posC ds sciExp o b = .ok r) :
+    r.buf.bytes.take r.cursor = writePositive ds sciExp { o with maxDigits := none } := by
+  rw [writePositive_noMax]
+  exact posCLayout_bytes _ sciExp o b r h
+
 theorem writeExponent_eq (fmt : Format) (feats : Features) (e : Int) (c r : Nat) :
     writeExponent fmt feats e c r = [c] ++ expSign fmt feats e ++ numeral r e.natAbs := rfl
 
+/-- scientific layout for final digits `ds` -/
+def sciList (fmt : Format) (feats : Features) (ds : List Nat) (e : Int) (o : WOpts) (r : Nat) : List Nat :=
+  (if ¬ fmt.noExponentWithoutFraction ∧ ds.length = 1 ∧ o.trim then [digitChar (ds.headD 0)]
+   else if ds.length < minExactDigits ds.length o then
+     [digitChar (ds.headD 0), o.dp] ++ chars ds.tail ++ zeros (minExactDigits ds.length o - ds.length)
+   else if ds.length = 1 then [digitChar (ds.headD 0), o.dp, 48]
+   else [digitChar (ds.headD 0), o.dp] ++ chars ds.tail)
+  ++ ([o.exp] ++ expSign fmt feats e ++ numeral r e.natAbs)
+
 theorem writeScientific_noMax (fmt : Format) (feats : Features) (ds : List Nat) (e : Int) (o : WOpts) (r : Nat) :
-    writeScientific fmt feats ds e { o with maxDigits := none } r =
-      (if ¬ fmt.noExponentWithoutFraction ∧ ds.length = 1 ∧ o.trim then [digitChar (ds.headD 0)]
-       else if ds.length < minExactDigits ds.length o then
-         [digitChar (ds.headD 0), o.dp] ++ chars ds.tail ++ zeros (minExactDigits ds.length o - ds.length)
-       else if ds.length = 1 then [digitChar (ds.headD 0), o.dp, 48]
-       else [digitChar (ds.headD 0), o.dp] ++ chars ds.tail)
-      ++ ([o.exp] ++ expSign fmt feats e ++ numeral r e.natAbs) := by
-  simp [writeScientific, writeExponent_eq]
+    writeScientific fmt feats ds e { o with maxDigits := none } r = sciList fmt feats (trimSci o ds) e o r := by
+  simp [writeScientific, writeExponent_eq, sciList]
 
 /-- `write_exponent` appends the exponent text to what precedes the cursor -/
 theorem writeExponentB_bytes (fmt : Format) (feats : Features) (b : WBuf) (cursor : Nat) (e : Int) (c : Nat) (r : Out)
@@ -212,11 +224,11 @@ theorem sciBody_bytes (fmt : Format) (n : Nat) (frac T : List Nat) (o : WOpts) (
         · have hb' := hb h5
           body_tac hb'
 
-theorem sciC_bytes (fmt : Format) (feats : Features) (ds : List Nat) (sciExp : Int) (o : WOpts) (b : WBuf) (r : Out)
-    (hds : 1 ≤ ds.length) (h : sciC fmt feats ds sciExp o b = .ok r) :
-    r.buf.bytes.take r.cursor = writeScientific fmt feats ds sciExp { o with maxDigits := none } fmt.exponentRadix := by
-  unfold sciC at h
-  rw [writeScientific_noMax]
+theorem sciCLayout_bytes (fmt : Format) (feats : Features) (ds : List Nat) (sciExp : Int) (o : WOpts) (b : WBuf) (r : Out)
+    (hds : 1 ≤ ds.length) (h : sciCLayout fmt feats ds sciExp o b = .ok r) :
+    r.buf.bytes.take r.cursor = sciList fmt feats ds sciExp o fmt.exponentRadix := by
+  unfold sciCLayout at h
+  unfold sciList
   simp only [bind_ok_iff, set_ok_iff] at h
   obtain ⟨b1, ⟨h1, rfl⟩, b2, ⟨h2, rfl⟩, r1, h3, h4⟩ := h
   simp only [put_len, put_length, WBuf.len] at h1 h2
@@ -232,6 +244,12 @@ theorem sciC_bytes (fmt : Format) (feats : Features) (ds : List Nat) (sciExp : I
   obtain ⟨hl, hbytes⟩ := hbody
   obtain ⟨_, hexp⟩ := writeExponentB_bytes fmt feats _ _ _ _ r h4
   rw [hexp, hbytes, writeExponent_eq]
+
+theorem sciC_bytes (fmt : Format) (feats : Features) (ds : List Nat) (sciExp : Int) (o : WOpts) (b : WBuf) (r : Out)
+    (hds : 1 ≤ ds.length) (h : sciC fmt feats ds sciExp o b = .ok r) :
+    r.buf.bytes.take r.cursor = writeScientific fmt feats ds sciExp { o with maxDigits := none } fmt.exponentRadix := by
+  rw [writeScientific_noMax]
+  exact sciCLayout_bytes fmt feats _ sciExp o b r (trimSci_length o ds hds).1 h
 
 /-- **`compact.rs` agrees with the list level**: whenever the buffer-faithful `compact::write_float` succeeds, the
 returned prefix is exactly `writeDigitsC`. -/
